@@ -25,11 +25,11 @@ func smallWindows(nSlots int) []Window {
 	slot := func(k int) int64 { return T0 + int64(k)*slotNS }
 	last := nSlots
 	return []Window{
-		{"all", slot(0), slot(last + 1)},               // every span strictly inside
-		{"from_on_2", slot(2), slot(last + 1)},         // From exactly on slot 2: slot 1 outside
-		{"to_on_last", slot(0), slot(last)},            // To exactly on the newest span
-		{"inner", slot(1) + 1, slot(last) - 1},         // oldest and newest span strictly outside
-		{"before_midnight", slot(-5), slot(last + 1)},  // From on the previous UTC day
+		{"all", slot(0), slot(last + 1)},              // every span strictly inside
+		{"from_on_2", slot(2), slot(last + 1)},        // From exactly on slot 2: slot 1 outside
+		{"to_on_last", slot(0), slot(last)},           // To exactly on the newest span
+		{"inner", slot(1) + 1, slot(last) - 1},        // oldest and newest span strictly outside
+		{"before_midnight", slot(-5), slot(last + 1)}, // From on the previous UTC day
 	}
 }
 
